@@ -38,7 +38,15 @@ func Fill(rng *lib.Rng, v reflect.Value, depth int) {
 	case reflect.Slice:
 		if v.Type().Elem().Kind() == reflect.Uint8 {
 			n := byteLens[rng.Intn(len(byteLens))]
-			v.Set(reflect.ValueOf(rng.Bytes(n)).Convert(v.Type()))
+			if v.Type().Elem() == reflect.TypeOf(byte(0)) {
+				v.Set(reflect.ValueOf(rng.Bytes(n)).Convert(v.Type()))
+				return
+			}
+			s := reflect.MakeSlice(v.Type(), n, n) // named byte types ([]TxType)
+			for i := 0; i < n; i++ {
+				s.Index(i).SetUint(uint64(byte(rng.U64())))
+			}
+			v.Set(s)
 			return
 		}
 		n := []int{0, 1, 2, 3}[rng.Intn(4)]
